@@ -279,7 +279,24 @@ class NpProxy:
         self._real = real
 
     def __getattr__(self, item):
-        return getattr(self._real, item)
+        r = getattr(self._real, item)
+        if callable(r) and not isinstance(r, (type, np.ufunc)) and item not in ("dtype", "errstate", "finfo", "iinfo"):
+            def wrapped(*a, **k):
+                return S.symview(r(*a, **k))
+            wrapped.__name__ = item
+            try:
+                object.__setattr__(self, item, wrapped)
+            except Exception:
+                pass
+            return wrapped
+        if isinstance(r, types.ModuleType) and item in ("linalg", "random", "testing", "add", "fft"):
+            return r
+        return r
+
+    def asarray(self, a, dtype=None, *args, **kw):
+        if isinstance(a, S.SymArray) and (dtype is None or dtype is object or dtype == object):
+            return a
+        return S.symview(np.asarray(a, dtype, *args, **kw))
 
     @staticmethod
     def _obj(dtype):
@@ -294,14 +311,14 @@ class NpProxy:
         if self._obj(dtype):
             z = np.empty(shape, dtype=object)
             z[...] = 0
-            return z
+            return z.view(S.SymArray)
         return np.zeros(shape, dtype, *a, **k)
 
     def ones(self, shape, dtype=None, *a, **k):
         if self._obj(dtype):
             z = np.empty(shape, dtype=object)
             z[...] = 1
-            return z
+            return z.view(S.SymArray)
         return np.ones(shape, dtype, *a, **k)
 
     def eye(self, N, M=None, k=0, dtype=None, **kw):
@@ -310,7 +327,7 @@ class NpProxy:
             z = np.empty(e.shape, dtype=object)
             for idx in np.ndindex(*e.shape):
                 z[idx] = int(e[idx])
-            return z
+            return z.view(S.SymArray)
         return np.eye(N, M, k, dtype, **kw)
 
     def identity(self, n, dtype=None):
@@ -322,6 +339,24 @@ class NpProxy:
             return np.zeros_like(a, *args, **k)
         return self.zeros(a.shape, dtype if dtype is not None else object)
 
+    def _elementwise(self, name, x):
+        f = getattr(np, name)
+        if isinstance(x, Sym):
+            return getattr(x, name)()
+        if isinstance(x, np.ndarray) and x.dtype == object:
+            out = np.empty(x.shape, dtype=object)
+            for idx in np.ndindex(*x.shape):
+                v = x[idx]
+                out[idx] = getattr(v, name)() if isinstance(v, Sym) else S._lift(f(v))
+            return out.view(S.SymArray)
+        return f(x)
+
+    def sqrt(self, x, *a, **k):
+        return self._elementwise("sqrt", x) if not (a or k) else np.sqrt(x, *a, **k)
+
+    def exp(self, x, *a, **k):
+        return self._elementwise("exp", x) if not (a or k) else np.exp(x, *a, **k)
+
     def diag(self, v, k=0):
         v = _arr(v)
         if v.dtype == object and v.ndim == 1 and k == 0:
@@ -330,12 +365,12 @@ class NpProxy:
             z[...] = 0
             for i in range(n):
                 z[i, i] = v[i]
-            return z
-        return np.diag(v, k)
+            return z.view(S.SymArray)
+        return S.symview(np.diag(v, k))
 
 
 NP_PROXY_MODULES = [
-    "renormalizer.mps.mpdm", "renormalizer.mps.mps", "renormalizer.mps.mpo", "renormalizer.mps.mp", "renormalizer.mps.lib",
+    "renormalizer.mps.matrix", "renormalizer.mps.mpdm", "renormalizer.mps.mps", "renormalizer.mps.mpo", "renormalizer.mps.mp", "renormalizer.mps.lib",
     "renormalizer.mps.svd_qn", "renormalizer.mps.gs", "renormalizer.mps.hop_expr", "renormalizer.mps.thermalprop",
     "renormalizer.tn.tree", "renormalizer.tn.treebase", "renormalizer.tn.node", "renormalizer.tn.time_evolution", "renormalizer.tn.hop_expr",
     "renormalizer.tn.gs",
@@ -423,6 +458,7 @@ class LapackContract:
         self.ctx = ctx
         self.cplx = cplx
         self.calls = []
+        self.eigvals = []
 
     def _fresh(self, tag, shape, real=False):
         kind = "real" if (real or not self.cplx) else "cplx"
@@ -517,6 +553,7 @@ class LapackContract:
         self._assume_eq(a @ v, vw, "eigh:AV=VW")
         self._assume_eq(self._H(v) @ v, np.eye(n, dtype=object), "eigh:VhV=I")
         self.calls.append(("eigh", a.shape))
+        self.eigvals.append(list(w))
         return w, v
 
 
